@@ -226,4 +226,24 @@ theorem caller_never_refused {g : Graph} {lim : Option Nat} (hg : GraphOK g) (hp
 /-- non-vacuity: the diamond's `post` is inside the converse of its `pre` -/
 example : ∀ v ∈ diamond.verts, ∀ u ∈ diamond.post v, v ∈ diamond.pre u := by decide
 
+/-! ### root selection and implementations of `vertex.descendents` -/
+
+/-- **root selection depends on the *set* of descendants only**: whatever list `D` an implementation of
+`vertex.descendents` returns for `v` — duplicates or not, in any order — as long as it has the same members as the
+model's `descendents`, `t.skip` decides the same.  (A correct deduplicating rewrite keeps the model valid; the truncating
+one of seed C13-7 changes the set and is caught by `plan:root-selection`.) -/
+theorem skip_depends_on_descendant_set (deps : V → List V) (fuel : Nat) (after : List V) (v : V) (D : List V)
+    (h : ∀ r, r ∈ D ↔ r ∈ descendents deps fuel v) :
+    skipOf deps fuel after v =
+      (if after.isEmpty then false else if after.contains v then false else !(after.any (fun r => D.contains r))) := by
+  have hc : (fun r => decide (r ∈ descendents deps fuel v)) = (fun r => decide (r ∈ D)) := by
+    funext r
+    simp [h r]
+  simp [skipOf, hc]
+
+/-- the shape of seed C13-7 (3 → {0, 2}, 2 → {0, 1}, root 1): the model keeps 3 (it reaches the root through 2, behind
+the shared dependency 0) and skips only 0 -/
+example : (List.range 4).map (skipOf (fun v => if v = 3 then [0, 2] else if v = 2 then [0, 1] else []) 4 [1])
+    = [true, false, false, false] := by decide
+
 end CV.Trav
